@@ -63,6 +63,11 @@ def make_state(en, enc: bytes, st_seed: int, variant: str) -> Dict[str, Any]:
         st["regs"]["I"] = rnd.choice([0x100, 0x101, 0x1FF, 0x200, 0x234])
         for r in ("X", "Y", "U"):                       # keep the external walk inside the address space and away from the code
             st["regs"][r] = rnd.choice([0x20000, 0x30400, 0x7F000]) + rnd.randrange(0x100)
+    if variant == "huge" and op in BLOCK_OPS:
+        # tens of thousands of bytes: judged by BlockCore (counter, pointer, flags, number of external locations written)
+        st["regs"]["I"] = rnd.choice([0x8000, 0x8001, 0xFFFF, 0xC123])
+        for r in ("X", "Y", "U"):
+            st["regs"][r] = 0x40000 + rnd.randrange(0x100)
     return st
 
 
@@ -73,9 +78,11 @@ def observe(eh, en, rid: int, enc: bytes, st_seed: int, variant: str = "") -> Di
     s = p["steps"][0]
     pm = p["_mem"]
     fin = sorted({a: pm.mem[a] for a, _ in s["writes"]}.items())
+    huge = 1 if variant == "huge" else 0
     return {"id": rid, "b": list(enc) + [0] * (8 - len(enc)), "n": len(enc), "regs": regs, "mem": mem,
             "post": {"regs": s["regs"], "len": s["len"], "err": 1 if s["err"] else 0, "pw": "run" if s["power"].startswith("run") else "low"},
-            "fin": [[a, v] for a, v in fin], "seed": st_seed, "variant": variant, "errtext": s["err"] or ""}
+            "fin": [] if huge else [[a, v] for a, v in fin], "seed": st_seed, "variant": variant, "errtext": s["err"] or "",
+            "huge": huge, "nw": len({a for a, _ in fin if a < 0x100000}) if huge else 0}
 
 
 def tags(rec: Dict[str, Any], edge: str, detail: str = "") -> str:
@@ -312,6 +319,11 @@ def run(cr: CheckRun) -> None:
     for e in (rnd2.sample(blk, min(len(blk), 48)) if quick else blk):
         rid += 1
         items.append((rid, e, rnd.getrandbits(30), "block"))
+    # block lengths above 32768 (the counter's sign bit): a few unprefixed register-indirect / absolute block moves
+    hug = [e for e in blk if e[0] not in PRE_SET and en.opcode_of(e) in (0xE3, 0xEB, 0xDB, 0xD3)]
+    for e in rnd2.sample(hug, min(len(hug), 4 if quick else 24)):
+        rid += 1
+        items.append((rid, e, rnd.getrandbits(30), "huge"))
     for e in overlap_encodings(cr.seed):
         for k in range(4 if quick else 20):
             rid += 1
